@@ -1629,6 +1629,9 @@ def _t_eval(target, _t, scope):
         elif op == '(':
             args, kwargs = arg
             scope[Path] += t_path[2:i+2:2]
+            if cur is None:
+                # Call(None, ...) would mean "call the target itself"
+                raise TypeError("'NoneType' object is not callable")
             cur = scope[glom](
                 target, Call(cur, args, kwargs), scope)
             # call with target rather than cur,
